@@ -326,7 +326,9 @@ def _block_worker(_):
                                       'header block spelling rejected: %r' % wire, w)
                         continue
                     if canon.dump(got, eq=True) != d0:
-                        which = 'trailing_ows' if ows_b else ('no_ows' if ows_a == '' else 'ows') if case is CASES[2] else 'case'
+                        # a name-case failure shows with every OWS pattern, an OWS failure also with the canonical case
+                        which = 'case' if case is not CASES[2] else \
+                            'trailing_ows' if ows_b else 'no_ows' if ows_a == '' else 'ows'
                         acc.violation('block:differs:%s' % which, 'header block %r parses differently from its canonical '
                                       'spelling' % wire, w)
                         continue
